@@ -23,6 +23,7 @@ VERDICT_PATTERNS = [
     'decreases not satisfied', 'could not prove termination', 'assertion failure',
     'loop invariant not satisfied', 'possible bit shift underflow/overflow', 'unreachable',
     'cannot show invariant', 'possible truncation', 'possible overflow', 'possible underflow',
+    'unable to prove post-condition of closure',
 ]
 UNDECIDED_PATTERNS = ['Resource limit', 'rlimit', 'timed out', 'internal error', 'panicked']
 
@@ -235,14 +236,14 @@ def _classify(diags, table, unit, cfg, text_lines=None, lifted=None):
                'properties': props, 'canary': canary, 'rendered': d.get('rendered', '')[:4000],
                'function': enclosing_fn(text_lines, labels[0]['assembled_line']) if (text_lines and labels and not str(labels[0]['file']).startswith('vstd:')) else None}
         fn_name = rec.get('function')
-        if not in_lifted and not named and not canary and lifted and fn_name in lifted and 'assertion failed' in kind:
+        if not in_lifted and not named and not canary and lifted and fn_name in lifted and ('assertion failed' in kind or 'post-condition of closure' in kind):
             # a proof step spliced into a lifted function (a fact about the program state at that point, proved on the unchanged
             # tree) no longer holds: the verifier assumes it from there on, so the clauses it serves are no longer established.
             # It is a failed obligation of that function, attributed to the properties its named clauses serve.
             clauses = lifted[fn_name]
             props2 = sorted({p for n in clauses for p in n.split('.')[0].split('+') if re.fullmatch(r'C\d{2,3}', p)}) or list(cfg['properties'])
             rec['properties'] = props2
-            rec['obligation'] = f"{unit}.{fn_name}.proof-step: " + (labels[0]['text'][:90] if labels else '?')
+            rec['obligation'] = f"{unit}.{fn_name}." + ('closure-contract: ' if 'closure' in kind else 'proof-step: ') + (labels[0]['text'][:90] if labels else '?')
             rec['serves'] = clauses
             failures.append(rec)
             continue
@@ -568,6 +569,31 @@ def check_property(pid, tier='quick', seed=0):
             nviol += 1
             lines.append(f'VIOLATION property={pid} replay={path}')
             print(f'[{pid}] unit {r["unit"]}: outside the verifier\'s reach after this change ({fe[0][:160]}); bounded stand-in search found a failing input')
+    # registered bounded stand-ins (units.json): functions the properties depend on that cannot be brought within the verifier's
+    # reach at all; a bounded check of each runs in every tier, labelled bounded, never counted as proved
+    bounded_report = []
+    for bs_unit, bs_cfg in cfg.items():
+        for bs in bs_cfg.get('bounded_standins', []):
+            if pid not in bs['properties']:
+                continue
+            r = {'unit': bs_unit}
+            entry = {'unit': bs_unit, 'covers': bs['covers'], 'bound': bs['bound'], 'run': bs['run']}
+            try:
+                from driver import witness as _w
+                w = _w.run_named(bs['run'])
+                entry['result'] = 'failing input found' if w else 'no failing input within the bound'
+                if w and not nviol:
+                    d = os.path.join(WORK, 'replay')
+                    os.makedirs(d, exist_ok=True)
+                    path = os.path.join(d, f"{pid}-{r['unit']}.registered-bounded-stand-in.json")
+                    json.dump({'property': pid, 'unit': r['unit'], 'obligation': f"{pid}.{r['unit']}.registered-bounded-stand-in", 'kind': 'bounded stand-in (not a proof obligation)',
+                               'source': None, 'decided_by': 'bounded check of a function outside the verifier\'s reach: ' + bs['covers'], 'bound': bs['bound'],
+                               'verifier_output': '', 'labels': [], 'witness': w}, open(path, 'w'), indent=1)
+                    nviol += 1
+                    lines.append(f'VIOLATION property={pid} replay={path}')
+            except Exception as e:   # a stand-in that cannot run decides nothing
+                entry['result'] = f'not run ({type(e).__name__}: {str(e)[:200]})'
+            bounded_report.append(entry)
     thorough_extra = {}
     if tier == 'thorough' and not violations and not undecided:
         thorough_extra = rp.thorough_extras(pid, units, seed)
@@ -576,7 +602,7 @@ def check_property(pid, tier='quick', seed=0):
             lines.append(v)
         for u in thorough_extra.get('undecided', []):
             undecided.append(u)
-    write_evidence(pid, tier, seed, results, nviol, undecided, kf_lines, time.time() - t0, thorough_extra)
+    write_evidence(pid, tier, seed, results, nviol, undecided, kf_lines, time.time() - t0, thorough_extra, bounded_report)
     for l in kf_lines:
         print(l)
     for r in results:
@@ -594,7 +620,7 @@ def check_property(pid, tier='quick', seed=0):
     return 0
 
 
-def write_evidence(pid, tier, seed, results, nviol, undecided, kf_lines, wall, extra):
+def write_evidence(pid, tier, seed, results, nviol, undecided, kf_lines, wall, extra, bounded_report=None):
     cfg = units_cfg()
     man = load_json('MANIFEST.json')
     chk = next((c for c in man['checks'] if c['property_id'] == pid), None)
@@ -644,6 +670,7 @@ def write_evidence(pid, tier, seed, results, nviol, undecided, kf_lines, wall, e
             'lift_rewrites': rewrites,
             'smt_time_ms': sum(r.get('smt_time_ms', 0) for r in results),
             'known_findings_printed': kf_lines,
+            'bounded_standins': bounded_report or [],
             'not_decided': (chk or {}).get('level_note', ''),
             'undecided': undecided,
         },
